@@ -407,6 +407,16 @@ func functions() []string {
 			r = append(r, "if("+a+", "+b+", 'z')", "if(\"x\" > 1, "+a+", "+b+")", "if(TRUE, "+a+", "+b+")")
 		}
 	}
+	// more arguments than the function takes, up to more than any function takes (the signature table is keyed by
+	// a fixed-size array of argument types)
+	for _, f := range []string{"abs", "strLength", "isPresent", "count", "sigma", "int", "if", "strSubstring", "pow"} {
+		for _, a := range []string{`"x"`, `1.5`} {
+			r = append(r, f+"("+a+", 2.0, 3.0, 4.0, 5.0)", f+"("+a+", 2.0, 3.0, 4.0, 5.0, 6.0)", f+"("+a+", 2.0, 3.0, 4.0, 5.0) > 1.0", "!"+f+"("+a+", TRUE, TRUE, TRUE, TRUE)")
+		}
+	}
+	for _, a := range []string{`"x"`, `1.5`, `TRUE`} {
+		r = append(r, "abs("+a+", 2.0, 3.0)", "abs("+a+", 2.0, 3.0, 4.0)", "if("+a+", 1, 2, 3)", "strLength("+a+", 'a', 'b', 'c')")
+	}
 	// stateful functions in operand positions where re-specialisation can happen
 	for _, sf := range []string{`count()`, `sigma("x")`, `spread("x")`, `sigma(float("x"))`} {
 		for _, op := range binOps {
